@@ -396,6 +396,15 @@ Proof.
   - eapply IH; exact Hx.
 Qed.
 
+Lemma NoDup_app_disjoint (A : Type) (l1 l2 : list A) :
+  NoDup l1 -> NoDup l2 -> (forall x, In x l1 -> ~ In x l2) -> NoDup (l1 ++ l2).
+Proof.
+  induction l1 as [|x l IH]; intros N1 N2 D; [exact N2|].
+  cbn [app]. inversion N1 as [|? ? Hnx Hl]; subst. constructor.
+  - rewrite in_app_iff. intros [Hx|Hx]; [contradiction|]. apply (D x); [left; reflexivity|exact Hx].
+  - apply IH; [exact Hl|exact N2|]. intros y Hy. apply D. right. exact Hy.
+Qed.
+
 Lemma room_nil n : N.of_nat n < two64 -> room [] n.
 Proof. intros H e. rewrite get_nil. lia. Qed.
 
@@ -453,11 +462,7 @@ Proof.
   (* NoDup of the concatenation *)
   assert (N1 := emitted_nodup pre [] Hr1).
   assert (N2 := emitted_nodup (repeat e post) _ Hr2).
-  clear - N1 N2 A4.
-  induction (emitted [] pre) as [|x l IH]; [exact N2|].
-  cbn [app]. inversion N1 as [|? ? Hnx Hl]; subst. constructor.
-  - rewrite in_app_iff. intros [Hx|Hx]; [contradiction|]. apply (A4 x); [left; reflexivity|exact Hx].
-  - apply IH; [exact Hl|]. intros y Hy. apply A4. right. exact Hy.
+  apply NoDup_app_disjoint; assumption.
 Qed.
 
 (* only the current local epoch's counter survives: a send at an older epoch after the import
@@ -512,8 +517,8 @@ Proof.
   assert (E5 : (get (i_local_seq s) (i_local_epoch s) <=? max_seq) = true) by (apply N.leb_le; exact H5).
   assert (E6 : (get (i_local_seq t) (i_local_epoch t) <=? max_seq) = true) by (apply N.leb_le; exact H6).
   rewrite E1, E2, E3, E4, E5, E6. unfold key_inputs_eqb.
-  rewrite !bytes_eqb_true, N.eqb_refl.
-  destruct (i_is_client s); split; reflexivity.
+  rewrite N.eqb_refl.
+  destruct (i_is_client s); cbn [negb xorb andb]; rewrite !bytes_eqb_true; split; reflexivity.
 Qed.
 
 (* ------------------------------------------------------------------ observations outside the letter of C19 *)
